@@ -328,15 +328,22 @@ auto count_min_sketch<W,A>::deserialize(std::istream& is, uint64_t seed, const A
     throw std::invalid_argument("Incompatible seed hashes: " + std::to_string(seed_hash) + ", "
                                 + std::to_string(compute_seed_hash(seed)));
   }
-  count_min_sketch c(nhashes, nbuckets, seed, allocator);
   const bool is_empty = (flags_byte & (1 << flags::IS_EMPTY)) > 0;
-  if (is_empty == 1) return c; // sketch is empty, no need to read further.
+  if (is_empty == 1) return count_min_sketch(nhashes, nbuckets, seed, allocator); // sketch is empty, no need to read further.
 
-  // Set the sketch weight and read in the sketch values
+  // Read the sketch weight and the sketch values. The table arrives in bounded chunks before the sketch is
+  // constructed, so that dimensions the stream cannot back fail before a large allocation
   const auto weight = read<W>(is);
-  c._total_weight += weight;
-  read(is, c._sketch_array.data(), sizeof(W) * c._sketch_array.size());
   if (!is.good()) throw std::runtime_error("error reading from std::istream");
+  const uint64_t num_cells = static_cast<uint64_t>(nhashes) * nbuckets;
+  if (num_cells >= (1ULL << 30)) {
+    throw std::invalid_argument("Possible corruption: the sketch exceeds 2^30 elements");
+  }
+  std::vector<W, A> table(allocator);
+  read_in_chunks(is, table, static_cast<size_t>(num_cells));
+  count_min_sketch c(nhashes, nbuckets, seed, allocator);
+  c._total_weight += weight;
+  c._sketch_array = std::move(table);
 
   return c;
 }
